@@ -35,6 +35,11 @@ def split_top(s, sep=","):
         elif c == '"':
             instr = True
             cur += c
+        elif c == "'" and (s[i + 2:i + 3] == "'" or (s[i + 1:i + 2] == "\\" and s[i + 3:i + 4] == "'")):
+            n = 3 if s[i + 2:i + 3] == "'" else 4          # a char literal such as ',' or '\n' (not a lifetime)
+            cur += s[i:i + n]
+            i += n
+            continue
         elif c in "([{<":
             if c == "<" and (i > 0 and s[i - 1] == " " or s[i + 1:i + 2] in (" ", "=")) and not s[:i].endswith(("const ", "move ", "copy ")):
                 cur += c  # comparison, not generic bracket (does not occur inside MIR operands anyway)
@@ -1293,6 +1298,10 @@ class Interp:
             return SV("f64", sem.float_const(v, "f64"))
         if c == "()":
             return Opaque("unit")
+        cm = re.match(r"^'(\\?.)'$", c)
+        if cm:
+            ch = {"\\n": "\n", "\\t": "\t", "\\\\": "\\", "\\'": "'"}.get(cm.group(1), cm.group(1))
+            return SV("u32", str(ord(ch[-1])))
         if re.search(r" as (std::mem::)?SizedTypeProperties>::(ALIGN|SIZE|IS_ZST)$", c):
             return Opaque("layout constant " + c[-5:])
         if re.search(r"promoted\[\d+\]$", c):
@@ -1457,6 +1466,9 @@ class Interp:
             if parts[-1] in self.decls.structs:
                 order = self.decls.structs.lookup(parts[-1], "::".join(parts[:-1]))
                 return Agg(parts[-1], {str(order.index(k)): v for k, v in named.items()})
+            if parts[0] in ("std", "core", "alloc") and parts[-1] in ("Range", "RangeInclusive", "RangeFrom", "RangeTo"):
+                # std range structs: fields in declaration order (start, end)
+                return Agg(parts[-1], {str(i): named[k] for i, k in enumerate(x for x in ("start", "end") if x in named)})
             raise Unsupported("%s: aggregate %s" % (fn.name, r))
         m = re.match(r"^([\w:<>, &'\[\]]+?)\((.*)\)$", r)
         if "::<" in r and r.endswith(")"):
